@@ -1,4 +1,4 @@
-NOTES = ("All checks: ./check <id> --tier quick|thorough. Exit 0 held / 1 VIOLATION / 2 machinery failure. "
+NOTES = ("All checks: ./check <id> --tier quick|thorough. Exit 0 held / 1 VIOLATION / 2 machinery failure; an interpreter crash while the check exercises the library and an exception raised by the library on a call drawn from the property's domain are reported as violations. "
          "Specifications in spec/, harness in harness/, per-property drivers in checks/. See DESIGN.md. "
          "Extensions of the specification beyond the listed properties (not property checks, same CLI): ./check X01 (date helpers vs Calendar.tla), "
          "X02 (sequence_true, lag, ismisscens, islinear step machine), X03 (compute_aggindex / dayofyear), X04 (catchment set algebra), X05 (Grid.slice on the exact lattice, slope along the flow direction), X06 (acf, goue and water_year_end in exact arithmetic).")
@@ -61,7 +61,7 @@ CHECKS = [
       text="GridGeom.tla states the footprint/centre/row-major/neighbour contract in quarter-cell integer geometry and TLC checks the kernels' "
            "floor-based arithmetic against it for every grid shape and every lattice point around it (and that truncation is wrong); every shape is "
            "replayed on real grids under exactly representable geometries over 8 orders of magnitude; random large shapes are validated by GridGeomTrace.tla.",
-      note="cell size 2^k, origin a multiple of it: rounding never decides the cell; points on cell edges excluded",
+      note="cell size 2^k, origin a multiple of it: rounding never decides the cell; points on cell edges excluded; cell numbers beyond 2^31 (47000 x 46000 grid) are checked with the specification's formulas evaluated in Python integers (TLC integers are 32-bit)",
       technique=TLA),
  dict(property_id="C16", category="model_checking", design_ref="3.7",
       text="GridWeights.tla: TLC checks the loop models of c_intersect / c_voronoi against footprint counts and nearest-point sets for every cell "
@@ -101,7 +101,7 @@ CHECKS = [
            "comparison and rank definitions for every ensemble set of the configs; every state is replayed through ensrank (F matrix and ranks) and "
            "dscore (value, range, perfect/inverse order, monotone-map and member-permutation invariance); PIT range/monotonicity/pseudo flag and the "
            "Cramer-von Mises formula on dyadic samples are replayed; random ensembles are validated by EnsRankTrace.tla.",
-      note="stable qsort assumed (glibc 2.36); AD statistic and p-value values not decided (range, order independence, rejection only)",
+      note="stable qsort assumed (glibc 2.36); the AD statistic is compared with the textbook formula by a float64 oracle of the harness (logarithms are outside TLC's integers); p-value values not decided (range, order independence, rejection only)",
       technique=TLA),
  dict(property_id="C20", category="model_checking", design_ref="3.15",
       text="Summaries.tla: TLC checks the loop model of c_paretofront against the dominance definition (with non-empty front and orientation reversal) "
